@@ -8,7 +8,7 @@ MANIFEST_ENTRY = dict(
     technique="TLC model checking of spec/MCWallet.tla + TLC-generated behaviours replayed on the real code + TLC trace validation (spec/TraceWallet.tla)",
     note=WALLET_NOTE)
 
-PARAMS = dict(quick_cfgs=['MC_C15_quick.cfg', 'MC_C15_buildq.cfg', 'MC_C07_quick.cfg'], thorough_cfgs=['MC_C15.cfg', 'MC_C03_acct.cfg', 'MC_C15_build.cfg', 'MC_C07_quick.cfg', 'MC_C07_acct.cfg'], quick_n=110, thorough_n=600, focus=['set_active', 'create_account', '>', 'build_output', 'mwix_req', 'build_coinbase'],
+PARAMS = dict(quick_cfgs=['MC_C15_quick.cfg', 'MC_C15_buildq.cfg', 'MC_C07_quick.cfg'], thorough_cfgs=['MC_C15.cfg', 'MC_C03_acct.cfg', 'MC_C15_build.cfg', 'MC_C07_quick.cfg', 'MC_C07_acct.cfg', 'MC_C03_three.cfg@sim=500x30'], quick_n=110, thorough_n=600, focus=['set_active', 'create_account', '>', 'build_output', 'mwix_req', 'build_coinbase'],
               crash_cases_quick=10, crash_cases_thorough=80, crash_ops=['receive', 'lock', 'finalize', 'process_invoice', 'init_send'],
               setup=STD_SETUP, assumptions=WALLET_ASSUME, extra_behaviours=[
     # directed: a restore from seed when the last output in chain order is NOT the one with the
